@@ -1,4 +1,5 @@
 import RV.Proofs.VarAux
+import RV.Proofs.VarKepler
 /-
   C16 — variational particles are the derivatives of the trajectory.
 
@@ -23,6 +24,7 @@ set_option linter.unreachableTactic false
 set_option linter.unnecessarySeqFocus false
 set_option linter.unusedVariables false
 set_option linter.unusedSimpArgs false
+set_option linter.unusedSectionVars false
 namespace RV.Var
 open RV
 variable {K : Type} [Field K] [CharZero K]
@@ -244,6 +246,38 @@ theorem c16_whfast_jacobi_term_partial (G eta dt : K) (sq : K → K) (x y z dx d
   simp only [mul_zero, zero_mul] at this
   rw [show (Dual.const eta : Dual K) = ⟨eta, 0⟩ from rfl, this]
   simp [V3.add]
+
+/-! ### WHFast tangent map, Kepler solver (model `Kepler.tangentUpdate` of C03, tied bitwise there) -/
+
+/-- the first lines of the tangent map (integrator_whfast.c:315-320): `dbeta, deta0, dzeta0`
+    are the ε-parts of `beta, eta0, zeta0` when `r0 ↦ r0 + ε·dr0`, `1/r0 ↦ 1/r0 − ε·dr0/r0²` -/
+theorem c16_whfast_kepler_invariants_tangent (M r0 r0i : K) (p dp : Kepler.P6 K) :
+    let dr0 := tanDr0 r0i p dp
+    let I := Kepler.invariants (Dual.const M) (⟨r0, dr0⟩ : Dual K) ⟨r0i, -(dr0 * r0i * r0i)⟩ (dP6 p dp)
+    let i0 := Kepler.invariants M r0 r0i p
+    I.beta.eps = (-2) * M * dr0 * r0i * r0i - 2 * (dp.vx * p.vx + dp.vy * p.vy + dp.vz * p.vz) ∧
+    I.eta0.eps = dp.x * p.vx + dp.y * p.vy + dp.z * p.vz + p.x * dp.vx + p.y * dp.vy + p.z * dp.vz ∧
+    I.zeta0.eps = (-i0.beta) * dr0 - r0 * I.beta.eps ∧
+    I.beta.re = i0.beta ∧ I.eta0.re = i0.eta0 ∧ I.zeta0.re = i0.zeta0 :=
+  kepler_invariants_tangent M r0 r0i p dp
+
+/-- partial: **given** the tangent map's own `dr0, dG1, dG2, dG3, dr` (`tanMid`, lines 315-331),
+    its update lines (332-342: `df, dg, dfd, dgd` and the six `+=`) are exactly the ε-part of
+    the real f-g update (lines 297-308) evaluated at `p + ε·dp`, `Gₖ + ε·dGₖ`,
+    `1/r0 − ε·dr0/r0²`, `1/r − ε·dr/r²`.  Missing for the full statement: that `dX` and `dGₖ`
+    are the derivatives of the solution of Kepler's equation and of the Stiefel functions
+    (the Stumpff-series helper `stumpff_cs` and the implicit differentiation) — that part is
+    covered numerically by the sharp finite-difference oracle of the check, over every
+    number of argument-halving passes of `stumpff_cs`. -/
+theorem c16_whfast_kepler_fg_tangent_partial (M r0 r0i ri X beta eta0 zeta0 dt : K) (gs : Kepler.Cs6 K)
+    (p dp : Kepler.P6 K) :
+    let m := tanMid M r0 r0i ri X beta eta0 zeta0 gs p dp
+    Kepler.tangentUpdate M r0 r0i ri X beta eta0 zeta0 (Kepler.fgCoeffs M r0i ri dt gs.c1 gs.c2 gs.c3) gs p dp
+      = epsP6 (Kepler.fgUpdate (Dual.const M) ⟨r0i, -(m.dr0 * r0i * r0i)⟩ ⟨ri, -(m.dr * ri * ri)⟩ (Dual.const dt)
+          ⟨gs.c1, m.dG1⟩ ⟨gs.c2, m.dG2⟩ ⟨gs.c3, m.dG3⟩ (dP6 p dp)) := by
+  intro m
+  rw [tangentUpdate_split]
+  exact tanLines_is_eps M r0i ri dt gs p dp m
 
 /-! ### move_to_com -/
 
